@@ -9,7 +9,7 @@
    executions; srcfacts' report of every access and of the lexical lock state; pre-publication
    of constructor/fresh/local sites; each HBVia pair (model/RacePolicy.v). *)
 From Coq Require Import String List Bool.
-From GS Require Import Race RacePolicy RaceSound RaceEntries RaceExamples AccessTable.
+From GS Require Import Race RacePolicy RaceSound RaceEntries RaceInfer RaceExamples AccessTable.
 Import ListNotations.
 Open Scope string_scope.
 
@@ -69,8 +69,66 @@ Theorem C17_eff_locks_truthful : forall tbl s h Hentry,
   covers h (eff_locks tbl s) = true.
 Proof. exact eff_locks_truthful. Qed.
 
-(* THE obligation that is re-proved against the regenerated table on every run *)
-Theorem C17_table_ok : table_ok policy_all exceptions table = true.
+(* ---------- inferred policies ----------
+   The table is checked against [effective pol tbl]: the declared policy followed by one INFERRED entry for every table
+   field the declared policy does not name (a renamed field, a new field) - the first of SyncTyped, CtorOnly, Immutable,
+   GuardedBy l (l among the locks held at the field's first shared access) under which the field's category and ALL its
+   sites pass the very checks a declared entry undergoes.  No candidate passes = the field stays unknown = the table
+   fails.  Nothing about the inference is trusted: *)
+
+(* a declared entry is the entry used, whatever could have been inferred *)
+Theorem C17_declared_authoritative : forall pol tbl k p,
+  lookup pol k = Some p -> lookup (effective pol tbl) k = Some p.
+Proof. exact declared_authoritative. Qed.
+
+(* an inferred entry passes the category check and the per-site check on every site of its field ... *)
+Theorem C17_inferred_checked : forall tbl f p, infer_field tbl f = Some p ->
+  cat_check p (fd_cat f) = None /\
+  forall s, In s (t_sites tbl) -> site_key s = (fd_struct f, fd_field f) -> site_check tbl p s = None.
+Proof. exact inferred_checked. Qed.
+
+(* ... and is never an HBVia: it excuses no conflicting pair *)
+Theorem C17_inferred_never_hbvia : forall tbl f p, infer_field tbl f = Some p -> forall n ps, p <> HBVia n ps.
+Proof. exact inferred_never_hbvia. Qed.
+
+(* in an accepted table EVERY non-excepted field of a tracked struct is declared-and-checked or inferred-and-checked *)
+Theorem C17_every_field_classified : forall pol exc tbl f,
+  table_ok (effective pol tbl) exc tbl = true -> In f (t_fields tbl) ->
+  in_keys exc (fd_struct f, fd_field f) = false ->
+  exists p,
+    lookup (effective pol tbl) (fd_struct f, fd_field f) = Some p /\
+    (lookup pol (fd_struct f, fd_field f) = Some p \/
+     (lookup pol (fd_struct f, fd_field f) = None /\ exists f', In f' (t_fields tbl) /\
+        (fd_struct f, fd_field f) = (fd_struct f', fd_field f') /\ infer_field tbl f' = Some p)) /\
+    cat_check p (fd_cat f) = None /\
+    forall s, In s (t_sites tbl) -> site_key s = (fd_struct f, fd_field f) -> site_check tbl p s = None.
+Proof. exact every_field_classified. Qed.
+
+(* the race-freedom conclusion for a table accepted under the effective policy; the only excuses left are those of the
+   DECLARED policy (excepted fields, listed pairs of a declared HBVia) *)
+Theorem C17_discipline_sound_inferred : forall pol exc tbl init sched st,
+  table_ok (effective pol tbl) exc tbl = true ->
+  initial init -> progs_in tbl init -> run init sched = Some st -> truthful (eff_locks tbl) st ->
+  forall i j ti tj s1 s2,
+    i <> j -> nth_error st i = Some ti -> nth_error st j = Some tj ->
+    next_acc ti = Some s1 -> next_acc tj = Some s2 -> conflict s1 s2 = true ->
+    excused pol exc tbl s1 s2 = true.
+Proof. exact discipline_sound_inferred. Qed.
+
+Theorem C17_discipline_sound_inferred_static : forall pol exc tbl init sched st,
+  table_ok (effective pol tbl) exc tbl = true ->
+  initial init -> progs_in tbl init ->
+  (forall t, In t init -> check_prog (eff_locks tbl) [] (prog t) = true) ->
+  run init sched = Some st ->
+  forall i j ti tj s1 s2,
+    i <> j -> nth_error st i = Some ti -> nth_error st j = Some tj ->
+    next_acc ti = Some s1 -> next_acc tj = Some s2 -> conflict s1 s2 = true ->
+    excused pol exc tbl s1 s2 = true.
+Proof. exact discipline_sound_inferred_static. Qed.
+
+(* THE obligation that is re-proved against the regenerated table on every run: the table extracted from the source is
+   accepted under the declared policy completed by inference *)
+Theorem C17_table_ok : table_ok (effective policy_all table) exceptions table = true.
 Proof. vm_compute. reflexivity. Qed.
 
 (* instance: the library as extracted from /repo *)
@@ -84,7 +142,7 @@ Theorem C17_no_race_in_extracted_table : forall init sched st,
     next_acc ti = Some s1 -> next_acc tj = Some s2 ->
     conflict s1 s2 = true ->
     excused policy_all exceptions table s1 s2 = true.
-Proof. exact (fun init sched st => discipline_sound policy_all exceptions table init sched st C17_table_ok). Qed.
+Proof. exact (fun init sched st => discipline_sound_inferred policy_all exceptions table init sched st C17_table_ok). Qed.
 
 Print Assumptions C17_discipline_sound.
 Print Assumptions C17_discipline_sound_static.
@@ -92,6 +150,12 @@ Print Assumptions C17_mutual_exclusion.
 Print Assumptions C17_excused_cases.
 Print Assumptions C17_entries_sound.
 Print Assumptions C17_eff_locks_truthful.
+Print Assumptions C17_declared_authoritative.
+Print Assumptions C17_inferred_checked.
+Print Assumptions C17_inferred_never_hbvia.
+Print Assumptions C17_every_field_classified.
+Print Assumptions C17_discipline_sound_inferred.
+Print Assumptions C17_discipline_sound_inferred_static.
 Print Assumptions C17_table_ok.
 Print Assumptions C17_no_race_in_extracted_table.
 
@@ -107,6 +171,25 @@ Example C17_ex_exception_masks_only_its_field :
 Proof. exact ex_exception_masks_exactly_that_field. Qed.
 Example C17_ex_unknown_field_refuted : table_ok [(("httpcluster.Runner", "mu"), SyncTyped)] [] mini_fixed = false.
 Proof. exact ex_unknown_field_rejected. Qed.
+(* ... but under the effective policy the unnamed field of the repaired shape gets GuardedBy mu by inference (accepted),
+   the defective shape admits no discipline (rejected), a declared policy that fails is not rescued by inference, and
+   renamed / new constructor-only and mutex fields are inferred while a late unguarded write is not *)
+Example C17_ex_inferred_guarded :
+  inferred only_mu mini_fixed = [(("httpcluster.Runner", "currentEntries"), GuardedBy mu)] /\
+  table_ok (effective only_mu mini_fixed) [] mini_fixed = true.
+Proof. exact ex_inferred_guarded. Qed.
+Example C17_ex_no_discipline_no_inference :
+  inferred only_mu mini_broken = [] /\ table_ok (effective only_mu mini_broken) [] mini_broken = false.
+Proof. exact ex_no_discipline_no_inference. Qed.
+Example C17_ex_declared_is_authoritative :
+  table_ok (effective ((("httpcluster.Runner", "currentEntries"), CtorOnly) :: only_mu) mini_fixed) [] mini_fixed = false.
+Proof. exact ex_declared_is_authoritative. Qed.
+Example C17_ex_renamed_fields_inferred :
+  inferred [] (ren_tbl false) = [(("p.T", "lifecycle"), CtorOnly); (("p.T", "extraMu"), SyncTyped)] /\
+  table_ok (effective [] (ren_tbl false)) [] (ren_tbl false) = true /\
+  inferred [] (ren_tbl true) = [(("p.T", "extraMu"), SyncTyped)] /\
+  table_ok (effective [] (ren_tbl true)) [] (ren_tbl true) = false.
+Proof. exact ex_renamed_fields_inferred. Qed.
 Example C17_ex_sync_reassign_refuted :
   table_ok mini_pol [] (mini [site_ctor; site_wr Ex; site_rd; site_once_reassign]) = false.
 Proof. exact ex_sync_reassign_rejected. Qed.
